@@ -14,6 +14,7 @@ only: implementation / planner model / reference semantics on generated stores a
 -/
 import BW.Proofs.Query
 import BW.Proofs.PlannerFetch3
+import BW.Proofs.PlannerStep6
 
 namespace BW.Props.C03
 open BW.Model BW.Spec BW.Proofs.Query BW.Proofs.Planner BW.Proofs.Store
@@ -103,6 +104,29 @@ theorem triple_to_row_is_reference (t : Triple) (c : Clause) (hid : IdAliasPlain
     tripleToRow t c = (match specBind c t with | some r => T2R.row r | none => T2R.skip) :=
   tripleToRow_eq t c hid
 
+/-! ### The per-row strategy is the reference's join step -/
+
+/-- `specifyClauseWithTable` — for every row of the table: fix the clause's open positions from the row's
+    values (`specialise`), tighten the window by the row's bound aliases, fetch (or probe, when the
+    specialised clause extracts nothing), keep the fetched rows that agree with the row, merge — yields,
+    whenever it succeeds, exactly the rows of the reference's join of the table with the clause: as a set,
+    up to the zone in which an anchor is written.  For every clause (OPTIONAL or not, any extraction,
+    anchor bindings, bounds and bound aliases), every table whose rows repeat no key and hold values of
+    the universe, every window.  The universe hypothesis (`Universe`: the values in play have distinct
+    UUID pre-images) is what the known findings D02/D04 violate. -/
+theorem per_row_strategy_is_join {F : Facts} (hF : Facts.WF F = true) {gs : List QGraph} (hg : GraphsOK F gs)
+    (U : Universe gs) {c : Clause} {lo : QOpts} (hwf : ClauseWF c) (hcin : ClauseIn U c) (hfil : lo.filter = none)
+    (rows out : List Row) (hrows : ∀ r ∈ rows, RowOK U r) (h : specifyAll F gs c lo 0 rows = .ok out) :
+    SetEq out (joinClause (gs.flatMap scanOf) (nl lo.lower) (nl lo.upper) rows c) ∧ ∀ r' ∈ out, RowOK U r' :=
+  specifyAll_spec hF hg U hwf hcin hfil rows out hrows h
+
+/-- The constants `specialise` adds are implied: a match of the clause that agrees with the row on the
+    shared bindings matches the specialised clause too, and nothing else does. -/
+theorem specialisation_is_transparent {r : Row} {c c' : Clause} {lo lo' : QOpts} (h : specialise r c lo = .ok (c', lo'))
+    (w : Window) (ht : Tight c w) (t : Triple) (m : Row) :
+    (matchClause c' w t = some m ∧ compatible r m = true) ↔ (matchClause c w t = some m ∧ compatible r m = true) :=
+  match_specialised (specialise_strip h) (specialise_implied h).1 (specialise_implied h).2 ht t m
+
 /-- Non-vacuity: the hypotheses hold for a one-triple graph and a clause with a constant predicate. -/
 def exV : TView := { id := 0, ks := preNode exT.s, pid := exT.p.id, pnano := none, ko := preNode ⟨[47, 117], [98]⟩ }
 def exQ : QGraph := { g := Graph.empty.add1 Facts.reference exV, uni := fun _ => some exT }
@@ -140,3 +164,5 @@ end BW.Props.C03
 #print axioms BW.Props.C03.monotone
 #print axioms BW.Props.C03.fetch_is_reference_match
 #print axioms BW.Props.C03.triple_to_row_is_reference
+#print axioms BW.Props.C03.per_row_strategy_is_join
+#print axioms BW.Props.C03.specialisation_is_transparent
